@@ -245,16 +245,6 @@ def abstract_encoders():
     def t_ok(c):
         return wire.table_encodable(c.value.t, B(leg(c)))
 
-    out.append(Contract(ENC + '.field_table', [('value', T.dict | T.none)], cases=[
-        Case('no-table', when=lambda c: c.value is None, returns=lambda c: b'\x00\x00\x00\x00'),
-        Case('empty-table', when=lambda c: is_dict(c.value) and neg(t_nonempty(c)), returns=lambda c: b'\x00\x00\x00\x00'),
-        Case('table', when=lambda c: is_dict(c.value) and conj(t_nonempty(c), t_ok(c)),
-             returns=lambda c: wire.table_bytes(c.st, c.value, leg(c))),
-        Case('table-with-unencodable-content', when=lambda c: is_dict(c.value) and conj(t_nonempty(c), neg(t_ok(c))),
-             raises=RAISES),
-    ], reads=[LEGACY], trusted=True, name=ENC + '.field_table(abstract)',
-        doc='abstract view used by callers: enc_table is an opaque specification function'))
-
     is_time = lambda v: isinstance(v, SOpaque) and v.kind in ('datetime_naive', 'datetime_aware', 'struct_time')
     secs = lambda c: SInt(wire.dt_seconds(c.value.t))
     out.append(Contract(ENC + '.timestamp', [('value', T.dt_naive | T.dt_aware | T.struct_time | T.int | T.str | T.none)], cases=[
@@ -265,6 +255,15 @@ def abstract_encoders():
         Case('not-a-time', when=lambda c: not is_time(c.value), raises=TypeError),
     ], trusted=True, name=ENC + '.timestamp(abstract)',
         doc='abstract view: dt_seconds is the whole-second instant with naive values read as UTC (C15 verifies the function)'))
+
+    is_dec = lambda v: isinstance(v, SOpaque) and v.kind == 'decimal'
+    out.append(Contract(ENC + '.decimal', [('value', T.decimal | T.int | T.str | T.none | T.float)], cases=[
+        Case('decimal', when=lambda c: is_dec(c.value) and wire.decimal_ok(c.value.t),
+             returns=lambda c: wire.decimal_bytes(c.st, c.value)),
+        Case('decimal-refused', when=lambda c: is_dec(c.value) and neg(wire.decimal_ok(c.value.t)), raises=RAISES),
+        Case('not-a-decimal', when=lambda c: not is_dec(c.value), raises=TypeError),
+    ], trusted=True, name=ENC + '.decimal(abstract)',
+        doc='abstract view (scale octet + signed 32-bit unscaled value; the function itself goes through str(value): bounded stand-in)'))
     return out
 
 
